@@ -494,3 +494,68 @@ Proof.
   destruct (lookup_some_of_key n (complete mc) Hk) as [c Lc].
   rewrite Ld, Li, Lc. eauto.
 Qed.
+
+(* ------------------------------------------------------------------ parse_restrictions=False *)
+Definition call_restr (c : mcall) : option (list (Z * Z)) := snd (fst (fst c)).
+Definition call_deform (c : mcall) : option (list Z) := snd (fst c).
+Definition call_ign (c : mcall) : bool := snd c.
+
+Lemma run_named_ok comp pd pi pr result :
+  (forall n, In n (map fst pr) -> In n (map fst comp)) ->
+  map fst pd = map fst comp -> map fst pi = map fst comp ->
+  (forall c, result c = Ok tt) ->
+  exists calls, run_named comp pd pi pr result = (calls, Ok tt) /\
+    map (fun c => (call_name c, call_restr c)) calls = pr /\
+    forall c, In c calls -> lookup (call_name c) pd = Some (call_deform c) /\
+                            lookup (call_name c) pi = Some (call_ign c).
+Proof.
+  intros Hk Hd Hi Hr. induction pr as [|[n rv] t IH]; simpl.
+  - exists []. split; [reflexivity|]. split; [reflexivity|]. intros c [].
+  - assert (Hn : In n (map fst comp)) by (apply Hk; simpl; auto).
+    destruct (lookup_some_of_key n pd) as [dv Ld]; [now rewrite Hd|].
+    destruct (lookup_some_of_key n pi) as [iv Li]; [now rewrite Hi|].
+    destruct (lookup_some_of_key n comp Hn) as [cc Lc]. rewrite Ld, Li, Lc, Hr.
+    destruct IH as [calls [E [M L]]]; [intros; apply Hk; simpl; auto|].
+    exists ((n, rv, dv, iv) :: calls). rewrite E; simpl. split; [reflexivity|]. split.
+    + change ((n, rv) :: map (fun c => (call_name c, call_restr c)) calls = (n, rv) :: t). now rewrite M.
+    + intros c [<-|H]; [split; assumption|now apply L].
+Qed.
+
+(* by NAME, whatever the key order of the restrictions dictionary: the calls are made in the order of
+   that dictionary, each with the restraints stored under its own name and with the deformation types
+   and hydrogen flag given for that name *)
+Lemma routing_noparse mc pr d i pd pi result :
+  parse_deformations (complete mc) d = Ok pd -> parse_ignore_hydrogens (complete mc) i = Ok pi ->
+  (forall n, In n (map fst pr) -> In n (map fst (complete mc))) ->
+  (forall c, result c = Ok tt) ->
+  exists calls, manager_align_noparse mc (Some pr) d i result = (calls, Ok tt) /\
+    map (fun c => (call_name c, call_restr c)) calls = pr /\
+    forall c, In c calls -> deform_spec d (call_name c) (call_deform c) /\ ign_spec i (call_name c) (call_ign c).
+Proof.
+  intros Pd Pi Hk Hr. unfold manager_align_noparse. rewrite Pd, Pi.
+  destruct (parse_deformations_ok _ _ _ Pd) as [D1 [D2 _]].
+  destruct (parse_ignore_ok _ _ _ Pi) as [I1 [I2 _]].
+  destruct (run_named_ok (complete mc) pd pi pr result Hk D1 I1 Hr) as [calls [E [M L]]].
+  exists calls. split; [assumption|]. split; [assumption|].
+  intros c Hc. destruct (L c Hc) as [Ld Li]. split; [apply D2|apply I2]; now apply lookup_in.
+Qed.
+
+Lemma routing_noparse_rejects mc pr d i e result :
+  parse_deformations (complete mc) d = Err e \/
+  (exists pd, parse_deformations (complete mc) d = Ok pd /\ parse_ignore_hydrogens (complete mc) i = Err e) ->
+  manager_align_noparse mc (Some pr) d i result = ([], Err e).
+Proof.
+  unfold manager_align_noparse. intros [H|[pd [H1 H2]]]; [now rewrite H|now rewrite H1, H2].
+Qed.
+
+(* a name that is not a species with both molecules is rejected with KeyError only when the loop reaches
+   it: nothing is aligned if it comes first *)
+Lemma routing_noparse_unknown_first mc n rv t d i pd pi result :
+  parse_deformations (complete mc) d = Ok pd -> parse_ignore_hydrogens (complete mc) i = Ok pi ->
+  ~ In n (map fst (complete mc)) ->
+  manager_align_noparse mc (Some ((n, rv) :: t)) d i result = ([], Err EKey).
+Proof.
+  intros Pd Pi Hn. unfold manager_align_noparse. rewrite Pd, Pi. simpl.
+  replace (lookup n (complete mc)) with (@None (nat * nat)) by (symmetry; now apply lookup_none).
+  destruct (lookup n pd); [|reflexivity]. destruct (lookup n pi); reflexivity.
+Qed.
